@@ -1110,3 +1110,101 @@ def c11_check(pid, tier, replay_file=None):
                    'pool reuse is driven by real traffic, not forced: a stale alias is observed when a later frame of the same size class lands in the recycled buffer (made likely by same-size churn on two connections)'])
 
 REGISTRY['C11'] = c11_check
+
+
+# ---------------------------------------------------------------------------
+# C20: Close releases every resource and is idempotent
+import lifefam as lf
+
+def c20_check(pid, tier, replay_file=None):
+    t0 = time.time()
+    big = tier == 'thorough'
+    wd = scratch('c20')
+    cov = {'states': 0, 'transitions': 0, 'model_runs': [], 'traces_validated_against_impl': 0, 'samples': []}
+    violations = []
+    scheds = []
+    if replay_file:
+        scheds = [json.load(open(replay_file))['schedule']]
+    else:
+        # 1. the intended design, exhaustively
+        if not os.environ.get('VERIF_SKIP_MC'):
+            cfgs = [('client', lf.consts(dconns=('d1',), pconns=('p1', 'p2'), useclient=True, maxops=3)),
+                    ('transport', lf.consts(dconns=('d1', 'd2'), pconns=('p1',), useclient=False, maxops=3))]
+            if big:
+                cfgs += [('client-2d', lf.consts(dconns=('d1', 'd2'), pconns=('p1', 'p2'), useclient=True, maxops=3)),
+                         ('transport-4ops', lf.consts(dconns=('d1', 'd2'), pconns=('p1', 'p2'), useclient=False, maxops=4))]
+            for name, c in cfgs:
+                r = lf.model_check(wd, c, timeout=3000)
+                if r['violated'] or not r['complete']:
+                    raise Machinery('Lifecycle.tla (%s): the intended design violates %s\n%s' % (name, r['violated'], r['out'][-2000:]))
+                cov['model_runs'].append({'config': name, 'distinct_states': r['distinct'], 'states_generated': r['states'], 'depth': r['depth']})
+                cov['states'] += r['distinct']; cov['transitions'] += r['states']
+            r = lf.model_check(wd, lf.consts(dconns=('d1',), pconns=('p1',), useclient=False, maxops=2), invariants=[], props=['ListenReturns'], timeout=1500, workers=8)
+            if r['violated'] or not r['complete']:
+                raise Machinery('Lifecycle.tla: ListenReturns fails in the intended design\n' + r['out'][-2000:])
+            cov['model_runs'].append({'config': 'liveness ListenReturns', 'distinct_states': r['distinct'], 'states_generated': r['states']})
+        # 2. every deviation of the catalogue: a counterexample in the model, replayed on the real objects with the intended expectations
+        cov['deviations'] = {}
+        for d, (uc, inv) in lf.DEVS.items():
+            acts, r = lf.deviation_schedule(wd, d, d)
+            if acts is None:
+                raise Machinery('Lifecycle.tla: deviation %s does not violate %s (vacuity)' % (d, inv))
+            sc = lf.intended_expectations(wd, acts, uc, 'dev_' + d)
+            if sc is None:
+                raise Machinery('Lifecycle.tla: the counterexample of %s cannot be followed by the intended design' % d)
+            cov['deviations'][d] = {'violates': inv, 'schedule': [(s['a'], s['c']) for s in sc['steps']]}
+            scheds.append(sc)
+        # 3. behaviours of the intended design (run to their terminal states: everything closed MaxRepeat times)
+        n = 150 if big else 40
+        k = 0
+        for uc, dconns in ((True, ('d1',)), (False, ('d1', 'd2'))):
+            for minops in (0, 2, 4):
+                scheds += lf.generate(wd, lf.consts(useclient=uc, dconns=dconns, maxops=5), minops, n, 90, 1000 * seed() + k, '%s%d' % ('k' if uc else 't', minops))
+                k += 1
+    results, crashes = lf.replay(scheds, pid, shards=16, timeout=1800)
+    byname = {s['name']: s for s in scheds}
+    # a schedule that failed is run once more alone, with a longer settle bound, before it counts
+    bad = [r for r in results if r.get('failures') or r.get('leaks')]
+    if bad and not replay_file:
+        again, c2 = lf.replay([dict(byname[r['name']]) for r in bad], pid + 'r', shards=min(16, len(bad)), timeout=1800, settle_ms=10000)
+        crashes += c2
+        confirmed = {r['name'] for r in again if r.get('failures') or r.get('leaks')}
+        cov['rerun'] = {'first_pass_failures': len(bad), 'confirmed': len(confirmed)}
+        results = [r for r in results if r['name'] not in {b['name'] for b in bad}] + again
+    for cr in crashes:
+        first = cr['panic'].splitlines()[0] if cr['panic'] else 'crash'
+        violations.append({'property': pid, 'signature': 'crash:' + first[:80], 'summary': 'C20: the process crashed while replaying %s: %s' % ([(s['a'], s['c']) for s in (cr['schedule'] or {}).get('steps', [])], first),
+                           'schedule': cr['schedule'], 'finding': {'kind': 'crash', 'panic': cr['panic']}, 'trace': []})
+    for r in results:
+        sc = byname.get(r['name'])
+        for fl in (r.get('failures') or [])[:1]:
+            step = sc['steps'][r['steps'] - 1] if sc and r['steps'] else {'a': '?', 'c': ''}
+            violations.append({'property': pid, 'signature': 'lifecycle:%s' % step['a'],
+                               'summary': 'C20: history %s: %s' % ([(s['a'], s['c']) for s in sc['steps'][:r['steps']]], fl), 'schedule': sc, 'finding': {'kind': 'mismatch', 'failure': fl}, 'trace': []})
+        if r.get('leaks'):
+            violations.append({'property': pid, 'signature': 'lifecycle:leak', 'summary': 'C20: after history %s (every participant closed, handlers returned) this is left: %s' % (
+                [(s['a'], s['c']) for s in sc['steps']], '; '.join(r['leaks'][:4])), 'schedule': sc, 'finding': {'kind': 'leak', 'leaks': r['leaks']}, 'trace': []})
+    # one violation per signature and failing action is enough to report
+    seen, uniq = set(), []
+    for v in violations:
+        key = (v['signature'], v['summary'][-120:])
+        if v['signature'] in seen and len(uniq) >= 6:
+            continue
+        seen.add(v['signature']); uniq.append(v)
+    cov['traces_validated_against_impl'] = len(results)
+    cov['steps_replayed'] = sum(r.get('steps', 0) for r in results)
+    cov['terminal_histories'] = sum(1 for s in scheds if s.get('terminal'))
+    cov['samples'] = [[(s['a'], s['c']) for s in sc['steps']] for sc in scheds[-3:]] or ['none']
+    cov['rule'] = ('spec/Lifecycle.tla checked exhaustively (all interleavings of user-level steps with the library\'s internal steps, every Close up to twice, in any order); every deviation of the catalogue '
+                   'violates its invariant and its counterexample is replayed on the real objects; behaviours of the intended design, generated by TLC simulation of LifecycleGen to their terminal states, '
+                   'are replayed step by step on a real Server / Conns / Transport / Client over a counting UNIX socket; after every step the projection of the real objects (goroutine profile by function, '
+                   'open sockets per connection, Close return values, Listen\'s return) must become equal to the projection of the model state, and after the last step no goroutine with a frame of '
+                   'hslam/rpc, hslam/scheduler or hslam/socket and no open socket may remain')
+    shutil.rmtree(wd, ignore_errors=True)
+    return finish(pid, tier, 'model_checking', cov, t0, uniq, [],
+                  ['R10: poll servers excluded; Server.Close only once Listen is serving; no user call is started on a Transport/Client after its Close',
+                   'the Client\'s RoundTripper is a harness wrapper around the real Transport: unscheduled detector probes are answered ErrDial without touching the Transport, scheduled ones wait at a gate and then run the real Transport.Ping',
+                   'handlers are held by harness gates (Release = the user\'s handler returns); "peers gone" for the server means Listen\'s cleanup cut the connections or the client ends were closed',
+                   'a failing history is re-run alone with a 10 s settle bound before it counts'])
+
+REGISTRY['C20'] = c20_check
